@@ -260,7 +260,15 @@ pub fn run(c: &Case) -> Outcome {
         if small_counters && !unit_len.is_empty() {
             if unit_len.len() == 1 && !c.track {
                 let l = *unit_len.values().next().unwrap();
-                if p_lens != vec![l] {
+                // A unit that fits must travel alone in exactly one message. A unit that exceeds the limit may be followed by
+                // header-only messages (the library starts a new message for an empty related group behind an oversize
+                // chunk): wasteful, but nothing in the statement forbids it. Header-only = at most 6 bytes here (ticks and
+                // counters below 120: 3-4 bytes), the smallest message with an entity is longer.
+                let carrying: Vec<usize> = if l > m { p_lens.iter().copied().filter(|x| *x > 6).collect() } else { p_lens.clone() };
+                if carrying.len() != p_lens.len() {
+                    classes.insert("header_only_message_behind_an_oversize_unit");
+                }
+                if carrying != vec![l] {
                     return Outcome::failed(Fail::new("C10.single_unit", format!("one unit of {l} bytes (max_size {m}): probe got messages {p_lens:?}")));
                 }
             }
@@ -310,8 +318,10 @@ pub fn run(c: &Case) -> Outcome {
                         }
                         classes.insert("everything_fits");
                     }
-                    if p_lens.len() > chunks.len().max(1) {
-                        return Outcome::failed(Fail::new("C10.more_messages_than_units", format!("{} messages for {} units", p_lens.len(), chunks.len())));
+                    // (header-only messages behind an oversize unit do not count, see above)
+                    let carrying = p_lens.iter().filter(|l| **l > h).count();
+                    if carrying > chunks.len().max(1) || (chunks.iter().all(|c| c + h <= m) && p_lens.len() > chunks.len().max(1)) {
+                        return Outcome::failed(Fail::new("C10.more_messages_than_units", format!("{} messages ({carrying} with content) for {} units", p_lens.len(), chunks.len())));
                     }
                 }
             }
